@@ -186,7 +186,7 @@ func runC36(c *core.Ctx) {
 		ok := false
 		for _, call := range core.Calls(dec.Pkg, dec.Decl.Body, func(o *types.Func) bool { return o.Name() == "DisposePeer" }) {
 			for _, ft := range core.CtlFactsAt(dec, call) {
-				if cl, isC := core.Unparen(ft.Expr).(*ast.CallExpr); isC && !ft.Truth {
+				if cl := core.CallOf(dec, ft.Expr); cl != nil && !ft.Truth {
 					if cal := core.Callee(dec.Pkg, cl); cal != nil && cal.Name() == "peerExistsInConfig" {
 						ok = true
 					}
